@@ -297,9 +297,18 @@ type c07Monitor struct {
 	nFileSync, nDirSyncFS, nHookFile, nHookDirFS, nHookDirMeta, nDirSync int
 	offset     int // line offset for concatenated lifetimes
 	pendingCreateSize map[string]int64
+	only              string // report only rules whose signature contains this
 }
 
 func (mo *c07Monitor) v(sig, desc string) {
+	// the same monitor serves C08 (rule R7 only)
+	if mo.only != "" && !strings.Contains(sig, mo.only) {
+		mo.c.Count("signals_for_other_properties", 1)
+		return
+	}
+	if strings.HasPrefix(sig, "C07:") && mo.c.ID != "C07" {
+		sig = mo.c.ID + sig[3:]
+	}
 	mo.c.Violation(sig, desc, mo.replay)
 }
 
@@ -559,7 +568,7 @@ func (mo *c07Monitor) marker(e *proc.Event) {
 func (mo *c07Monitor) opBeginPos() int { return 0 }
 
 // c07Scenario runs one directory through several process lifetimes under strace.
-func c07Scenario(c *evid.Ctx, seed int64, kills []string, nops int) {
+func c07Scenario(c *evid.Ctx, seed int64, kills []string, nops int, only ...string) {
 	tmp, err := os.MkdirTemp("", "verif-c07-")
 	if err != nil {
 		c.Inconclusive("cannot create temp dir: %v", err)
@@ -576,6 +585,9 @@ func c07Scenario(c *evid.Ctx, seed int64, kills []string, nops int) {
 	mo := &c07Monitor{c: c, dir: dir, files: map[string]*c07FileState{}, opBegin: map[string]int{}, opTouched: map[string]bool{},
 		delBegin: map[string]int{}, unlinkAt: map[string]int{}, pendingCreateSize: map[string]int64{},
 		replay: map[string]any{"seed": seed, "kills": kills, "ops_per_lifetime": nops}}
+	if len(only) > 0 {
+		mo.only = only[0]
+	}
 	for life, kill := range append(kills, "none") {
 		killAt, killCre, killHook, killFS := "0", "0", "-", "0"
 		switch {
